@@ -109,13 +109,20 @@ def run_case(case: dict[str, Any]) -> dict[str, Any]:
                 # tick number = position on this run's tick sequence (by timestamp)
                 helper = r._resamplers[rx]._helper  # noqa: SLF001
                 entry = {"ts": s.timestamp, "value": None if s.value is None else s.value.base_value,
-                         "t_recv": _now(), "ncalls": len(rec["calls"]), "cap": helper._buffer.maxlen,  # noqa: SLF001
+                         "t_recv": _now(), "t_call": _now(), "ncalls": len(rec["calls"]), "cap": helper._buffer.maxlen,  # noqa: SLF001
                          "sampling_period": r.get_source_properties(rx).sampling_period}
-                rec["sinks"][i].append(entry)
+                # a slow sink either takes the sample at once and is busy afterwards, or it is slow to take it (a full
+                # channel): then the sample has been handed over only when the sink returns
+                late = bool(case.get("sink_takes_late"))
+                if not late:
+                    rec["sinks"][i].append(entry)
                 k = round((s.timestamp - rec["first_window_end"]).total_seconds() / period) if "first_window_end" in rec else 0
                 l = lat.get((k, i), 0.0)
                 if l > 0:
                     await asyncio.sleep(l * period)
+                if late:
+                    entry["t_recv"] = _now()
+                    rec["sinks"][i].append(entry)
 
             # (the name is a free-form label: several series may carry the same one)
             ok = r.add_timeseries("series" if case.get("same_names") else f"s{i}", rx, sink)
